@@ -19,6 +19,8 @@ def layouts(tier):
         R.layout("three-noauto", [c("c2", extra_src=INJ), c("c0", extra_src=INJ), c("c1", extra_src=INJ)], auto=False, teleop_in_auto=True, p_us=20000),
         R.layout("one+auto", [c("c0", extra_src=INJ)], auto=True, p_us=5000),
         R.layout("same-class-pair", [c("c0", extra_src=INJ), c("c1", extra_src=INJ), c("c2", same_class_as="c0")], auto=True, p_us=20000),
+        # a component without setup / on_enable / on_disable declared between two that have them
+        R.layout("middle-without-hooks", [c("c0", extra_src=INJ), c("c1", hooks=False, extra_src=INJ), c("c2", extra_src=INJ)], auto=True, teleop_in_auto=False, p_us=20000),
     ]
     if tier == "thorough":
         import itertools
@@ -174,7 +176,7 @@ def main(tier, seed):
     L = layouts(tier)
     short = R.histories(5)
     for li, lay in enumerate(L):
-        hh = (hs + (hs3 if li < 2 else [])) if li < 5 else short  # generated permutation layouts: four-word histories to depth 5
+        hh = (hs + (hs3 if li < 2 else [])) if li < 5 else short  # sixth layout and generated permutation layouts: four-word histories to depth 5
         for i in range(0, len(hh), 40):
             items.append(dict(layout=lay, histories=hh[i:i + 40], seed=seed))
     res = core.Result()
